@@ -285,6 +285,43 @@ CHECKS = {
              'faults are limited to operations that can fail with ENOSPC; '
              'atomicity of MULTIAPPEND across process death is a known '
              'finding'),
+    'C05': dict(
+        category='exploration', design='4/C05',
+        technique='runtime monitor: 4-state reference automaton judged step '
+                  'by step; the state after every prefix is revealed '
+                  'black-box by probe commands on cloned runs and cross-'
+                  'checked glass-box; exhaustive over all sequences of '
+                  'length <= 2 (quick) / <= 3 (thorough), random beyond',
+        text='Alphabet of 66 symbols (every built-in command with valid, '
+             'invalid-argument, missing-mailbox and bad-credential variants, '
+             'SELECT vs EXAMINE of two marked mailboxes, AUTHENTICATE '
+             'exchanges, IDLE+DONE, STARTTLS). Every prefix is re-executed '
+             'from a fresh environment with a probe suffix (STATUS / FETCH of '
+             'the marker header / STORE .SILENT) that reveals authenticated?, '
+             'which mailbox is selected, read-only?; each step must be in the '
+             "automaton's allowed set, refused commands must leave state and "
+             'a full data dump unchanged, LOGOUT must give BYE, OK, close.',
+        note='bad_command_limit is switched off so five refusals do not end a '
+             'trace; pysasl entry-point scan memoised in the worker; TLS '
+             'handshake is a no-op on the in-memory transport'),
+    'C09': dict(
+        category='exploration', design='4/C09',
+        technique='runtime monitor: reference authenticator + identity-'
+                  'revealing probes (secret marker mailbox / script per '
+                  'user) after every attempt + recording wrappers on '
+                  'login.authenticate/authorize',
+        text='1-7 attempts per connection over LOGIN (all spellings), '
+             'AUTHENTICATE PLAIN/LOGIN (about 45 credential and wire '
+             'flavours: wrong/empty password, unknown/disabled user, authzid '
+             'variants, bad base64, cancel, oversized, 8-bit, NUL), unknown '
+             'mechanisms, STARTTLS; configurations tls on/off x local/remote '
+             'peer x dict/maildir x IMAP/ManageSieve; after each attempt LIST '
+             '(or LISTSCRIPTS) shows whether the connection is authenticated '
+             'and as whom; only verified credentials of an existing user may '
+             'authenticate, authzid only for admins, never while '
+             'LOGINDISABLED, never a change of identity afterwards.',
+        note='refusing valid credentials is counted, not a violation; lenient '
+             'base64 readings that verify are latitude'),
 }
 
 NOT_YET = 'check not built yet in this round (see DESIGN.md section 4)'
